@@ -789,10 +789,14 @@ impl Collection {
             .or_else(|| self.get_default())
             .or_else(|| {
                 let base_host = name.split(':').next();
+                // IPv6 addresses contain colons; the port, if any, follows the closing bracket.
+                let ipv6_loopback = name == "::1"
+                    || name
+                        .strip_prefix("[::1]")
+                        .map_or(false, |rest| rest.is_empty() || rest.starts_with(':'));
                 if base_host == Some("localhost")
                     || base_host == Some("127.0.0.1")
-                    || base_host == Some("::1")
-                    || base_host == Some("[::1]")
+                    || ipv6_loopback
                 {
                     self.first.as_ref().and_then(|host| self.get_host(host))
                 } else {
